@@ -30,10 +30,15 @@ NAMES = dict(NAME_VARIANTS[0])
 _INV_NAMES = {v: k for k, v in NAMES.items()}
 
 
-def set_names(idx):
-    """Choose the concretisation of names for history number idx (workers handle one history at a time)."""
+def names_of(idx):
+    return 1 if idx % 4 == 3 else 0
+
+
+def set_names(variant):
+    """Choose the concretisation of names (0: all names longer than one character, 1: "a" is one character long);
+    workers handle one history at a time."""
     NAMES.clear()
-    NAMES.update(NAME_VARIANTS[1 if idx % 4 == 3 else 0])
+    NAMES.update(NAME_VARIANTS[variant])
     _INV_NAMES.clear()
     _INV_NAMES.update({v: k for k, v in NAMES.items()})
 
@@ -122,7 +127,7 @@ def simulate_histories(ctx, constants, num, depth, seed, label):
 
 def witness_by_simulation(ctx, constants, witness, seed):
     """Anti-vacuity: a random walk must reach the witnessed class of histories (TLC reports the invariant violated)."""
-    res = tlc.run(ctx, "HistoryChannelGen", mode="simulate", cfg_text=vtable.cfg(constants, (witness,)), num=20000,
+    res = tlc.run(ctx, "HistoryChannelGen", mode="simulate", cfg_text=vtable.cfg(constants, (witness,)), num=4000,
                   depth=40, seed=seed, workers=1, allow_violation=True, timeout=600)
     if res.get("violated") != witness:
         ctx.machinery("vacuity guard: no walk of HistoryChannelGen reaches %s" % witness)
@@ -149,13 +154,15 @@ def universe(ctx, nsmall, nlarge, max_revs):
     for name, c in (("trees", TREES if q else TREES_T), ("graph", GRAPH if q else GRAPH_T)):
         tlc.check(ctx, "HistoryChannelGen", cfg_text=vtable.cfg(c, INVARIANTS), label="exhaustive " + name, timeout=3000)
     for i, w in enumerate(WITNESSES):
-        witness_by_simulation(ctx, LARGE, w, ctx.seed * 100 + i)
+        witness_by_simulation(ctx, dict(LARGE, MaxRevs=4, MinRevs=3), w, ctx.seed * 100 + i)
     hs = simulate_histories(ctx, SMALL, nsmall, 30, ctx.seed * 10 + 1, "simulate small")
-    runs = [(max_revs, 3, 2), (max_revs, 2, 2), (max_revs, 1, 2), (3, 3, 2)] + ([] if q else [(max_revs, 3, 3)])
-    for k, (mr, me, mp) in enumerate(runs):
-        hs += simulate_histories(ctx, dict(LARGE, MaxRevs=mr, MinRevs=min(mr, 3), MaxEdits=me, MaxParents=mp),
+    # (revisions, edits per commit, parents per merge, several roots); histories with several roots are kept to one run
+    runs = [(max_revs, 3, 2, "FALSE"), (max_revs, 2, 2, "FALSE"), (max_revs, 1, 2, "FALSE"), (3, 3, 2, "TRUE")] + \
+        ([] if q else [(max_revs, 3, 3, "FALSE"), (4, 2, 2, "TRUE")])
+    for k, (mr, me, mp, nr) in enumerate(runs):
+        hs += simulate_histories(ctx, dict(LARGE, MaxRevs=mr, MinRevs=min(mr, 3), MaxEdits=me, MaxParents=mp, NewRoots=nr),
                                  nlarge // len(runs) + 1, 45, ctx.seed * 10 + 2 + k,
-                                 "simulate large, <= %d revisions, <= %d edits, <= %d parents" % (mr, me, mp))
+                                 "simulate large, <= %d revisions, <= %d edits, <= %d parents, roots %s" % (mr, me, mp, nr))
     seen, out = set(), []
     for h in hs:
         k = hkey(h)
@@ -329,7 +336,7 @@ def new_branch(url, fmt="2a"):
     return controldir.ControlDir.create_branch_convenience(url, format=f, force_new_tree=False)
 
 
-def materialise(ctx, h, url=None):
+def materialise(ctx, h, url=None, props=None):
     """Abstract history -> real 2a branch (tip = h.tip, tags set).  Binding self-check: what was built is what was
     asked for (graph, every tree with its file ids, metadata), else machinery failure."""
     from breezy import revision as _r
@@ -342,7 +349,7 @@ def materialise(ctx, h, url=None):
             basis = trees[ps[0] - 1] if ps else {}
             m = real_meta(h["M"][r - 1])
             builder = repo.get_commit_builder(b, pids, b.get_config_stack(), timestamp=m["timestamp"],
-                                              timezone=m["timezone"], committer=m["committer"], revprops={},
+                                              timezone=m["timezone"], committer=m["committer"], revprops=dict(props or {}),
                                               revision_id=revid(r))
             try:
                 list(builder.record_iter_changes(_ATree(trees[r - 1]), pids[0] if pids else _r.NULL_REVISION,
@@ -513,8 +520,246 @@ def lean(row):
     """The part of a row TLC reads (diagnostics stay in python)."""
     def strip(x):
         if isinstance(x, dict):
-            return {k: strip(v) for k, v in x.items() if k not in ("diag", "raw", "emsg", "exc", "site", "tb", "stage")}
+            return {k: strip(v) for k, v in x.items() if k not in ("diag", "raw", "emsg", "exc", "site", "tb", "stage", "pyfail", "min", "min_runs", "cls") and v is not None}
         if isinstance(x, list):
             return [strip(v) for v in x]
         return x
     return strip(row)
+
+
+# ----------------------------------------------------------------------------- minimisation of failing histories
+# A violation's signature must name the narrowest input class.  Random histories mix many edits, so a failing history
+# is first shrunk (delta debugging on the ABSTRACT history, re-running the real code with a python twin of the failed
+# clause as predicate): smallest failing ancestry, collapsed to (left parent, revision) when that still fails, every
+# edit that is not needed undone, every by-standing object removed, metadata flattened.  The signature is then read off
+# the minimal history.  The verdict itself is never taken from the twin: TLC judged the original row.
+def py_failed(h, o, meta=True, tags=True):
+    """Python twin of the clause-wise laws, coarse: the kind of failure as a hashable value, or None."""
+    if not o.get("ok"):
+        return "error:%s:%s@%s" % (o.get("stage", ""), o.get("exc"), o.get("site"))
+    n = len(h["P"])
+    if o.get("nrevs") != n or len(o["P"]) != n or \
+            sorted(_unfold_keys(h["P"], [0] * n)) != sorted(_unfold_keys(o["P"], [0] * len(o["P"]))) or \
+            _unfold_keys(h["P"], [0] * n)[h["tip"] - 1] != _unfold_keys(o["P"], [0] * n)[o["tip"] - 1]:
+        return "graph"
+    hk = _unfold_keys(h["P"], [carried(t) for t in h["T"]])
+    ok = _unfold_keys(o["P"], [carried(t) for t in o["T"]])
+    if hk[h["tip"] - 1] != ok[o["tip"] - 1]:
+        return "trees"
+    if meta:
+        for f in ("msg", "who", "ts", "tz"):
+            if _unfold_keys(h["P"], [m[f] for m in h["M"]])[h["tip"] - 1] != \
+                    _unfold_keys(o["P"], [m[f] for m in o["M"]])[o["tip"] - 1]:
+                return "meta:" + f
+    if tags:
+        hf = _unfold_keys(h["P"], [[carried(t), m] for t, m in zip(h["T"], h["M"])])
+        of = _unfold_keys(o["P"], [[carried(t), {k: m[k] for k in ("msg", "who", "ts", "tz")}] for t, m in zip(o["T"], o["M"])])
+        if sorted((g["name"], hf[g["rev"] - 1]) for g in h["tags"]) != \
+                sorted((g["name"], of[g["rev"] - 1]) for g in o["tags"] if g["rev"]) or \
+                any(not g["rev"] for g in o["tags"]):
+            return "tags"
+    return None
+
+
+def wf_tree(t):
+    paths = [tuple(e["p"]) for e in t]
+    objs = [e["o"] for e in t]
+    if len(set(paths)) != len(paths) or len(set(objs)) != len(objs):
+        return False
+    kinds = {tuple(e["p"]): e["k"] for e in t}
+    return all(len(p) == 1 or kinds.get(p[:-1]) == "directory" for p in paths)
+
+
+def branch_part(h, tip, keep_tags=False):
+    """Python twin of HistoryChannel!BranchPart with another tip."""
+    anc, todo = set(), [tip]
+    while todo:
+        r = todo.pop()
+        if r not in anc:
+            anc.add(r)
+            todo.extend(h["P"][r - 1])
+    order = sorted(anc)
+    num = {r: i for i, r in enumerate(order, 1)}
+    return {"P": [[num[p] for p in h["P"][r - 1]] for r in order], "T": [h["T"][r - 1] for r in order],
+            "M": [h["M"][r - 1] for r in order],
+            "tags": [{"name": g["name"], "rev": num[g["rev"]]} for g in h["tags"] if keep_tags and g["rev"] in num],
+            "tip": len(order)}
+
+
+def _without(t, obj):
+    """tree without object obj and everything below it"""
+    e = next((e for e in t if e["o"] == obj), None)
+    if e is None:
+        return t
+    p = e["p"]
+    return [f for f in t if f["p"][:len(p)] != p]
+
+
+def minimise(h, run, budget=80):
+    """Shrink h while run(h) keeps returning the same failure kind.  Returns (minimal history, runs used)."""
+    want = run(h)
+    used = [1]
+    if want is None:
+        return h, 1
+
+    def still(c):
+        if used[0] >= budget or not all(wf_tree(t) for t in c["T"]):
+            return False
+        used[0] += 1
+        return run(c) == want
+    cur = h
+    for k in range(1, len(h["P"]) + 1):                        # smallest failing ancestry (tags first without, then with)
+        for kt in (False, True):
+            c = branch_part(h, k, kt)
+            if (k < len(h["P"]) or not kt) and still(c):
+                cur = c
+                break
+        else:
+            continue
+        break
+    n = len(cur["P"])
+    if n > 2 and cur["P"][n - 1]:                              # (left parent, revision) alone
+        left = cur["P"][n - 1][0]
+        c = {"P": [[], [1]], "T": [cur["T"][left - 1], cur["T"][n - 1]], "M": [cur["M"][left - 1], cur["M"][n - 1]],
+             "tags": [], "tip": 2}
+        if still(c):
+            cur = c
+    if len(cur["P"][-1]) > 1:                                  # merge parents not needed?
+        c = dict(cur, P=cur["P"][:-1] + [cur["P"][-1][:1]])
+        c = branch_part(c, c["tip"], True)
+        if still(c):
+            cur = c
+    progress = True
+    while progress and used[0] < budget:
+        progress = False
+        n = len(cur["P"])
+        tip_t = cur["T"][n - 1]
+        base = cur["T"][cur["P"][n - 1][0] - 1] if cur["P"][n - 1] else []
+        bo = {e["o"]: e for e in base}
+        for obj in sorted({e["o"] for e in tip_t} | set(bo), reverse=True):
+            cands = []
+            if n == 2 and cur["P"] == [[], [1]]:               # a by-stander: gone from both trees
+                cands.append(dict(cur, T=[_without(cur["T"][0], obj), _without(cur["T"][1], obj)]))
+            e = next((e for e in tip_t if e["o"] == obj), None)
+            if e != bo.get(obj):                               # an edit: undone in the last revision
+                t2 = [f for f in tip_t if f["o"] != obj]
+                if e is not None and e["k"] == "directory":
+                    t2 = [f for f in t2 if f["p"][:len(e["p"])] != e["p"]]
+                if obj in bo:
+                    t2 = t2 + [bo[obj]]
+                cands.append(dict(cur, T=cur["T"][:-1] + [sorted(t2, key=lambda f: f["p"])]))
+                if e is not None and obj in bo:                # partly undone: one attribute at a time
+                    for f in ("p", "k", "c", "x"):
+                        if e[f] != bo[obj][f] and sum(e[g] != bo[obj][g] for g in ("p", "k", "c", "x")) > 1:
+                            e2 = dict(e)
+                            e2[f] = bo[obj][f]
+                            if f == "k":
+                                e2["c"], e2["x"] = bo[obj]["c"], bo[obj]["x"]
+                            if e2["k"] != "file":
+                                e2["x"] = False
+                            if (e2["k"] == "directory") != (e2["c"] == 0):
+                                continue
+                            cands.append(dict(cur, T=cur["T"][:-1] + [sorted([g for g in tip_t if g["o"] != obj] + [e2],
+                                                                             key=lambda g: g["p"])]))
+            for c in cands:
+                if c["T"] != cur["T"] and still(c):
+                    cur, progress = c, True
+                    break
+            if progress:
+                break
+    # canonical by-standing attributes: plain non-executable files with content 1 wherever the failure does not care
+    for obj in sorted({e["o"] for t in cur["T"] for e in t}):
+        for fields in (("k", "c", "x"), ("x",), ("c",)):
+            def norm(e):
+                if e["o"] != obj or e["k"] == "directory":
+                    return e
+                e2 = dict(e)
+                if "k" in fields:
+                    e2["k"] = "file"
+                if "c" in fields:
+                    e2["c"] = 1
+                if "x" in fields or e2["k"] != "file":
+                    e2["x"] = False
+                return e2
+            c = dict(cur, T=[[norm(e) for e in t] for t in cur["T"]])
+            if c["T"] != cur["T"] and still(c):
+                cur = c
+                break
+    flat = dict(cur, M=[{"msg": 0, "who": 0, "ts": 0, "tz": 0} for _ in cur["M"]])
+    if flat["M"] != cur["M"] and still(flat):
+        cur = flat
+    if cur["tags"]:
+        c = dict(cur, tags=[])
+        if still(c):
+            cur = c
+    return cur, used[0]
+
+
+def change_classes(h):
+    """Fine-grained description of what the LAST revision of a (minimal) history does relative to its left parent,
+    plus the shape of the history: the input class of a signature."""
+    n = len(h["P"])
+    f = set()
+    if len(h["P"][n - 1]) > 1:
+        f.add("merge")
+    if sum(1 for ps in h["P"] if not ps) > 1:
+        f.add("second-root")
+    if not h["P"][n - 1]:
+        for e in h["T"][n - 1]:
+            f.add("root-has-" + e["k"])
+        return f
+    base = h["T"][h["P"][n - 1][0] - 1]
+    bo = {e["o"]: e for e in base}
+    bp = {tuple(e["p"]): e for e in base}
+    cur = {e["o"]: e for e in h["T"][n - 1]}
+    newdirs = {tuple(e["p"]) for e in cur.values() if e["k"] == "directory" and
+               (e["o"] not in bo or bo[e["o"]]["k"] != "directory" or bo[e["o"]]["p"] != e["p"])}
+    for o, e in cur.items():
+        b = bo.get(o)
+        p = tuple(e["p"])
+        where = ""
+        if p in bp and bp[p]["o"] != o:
+            where += "@path-of-%s-%s" % ("deleted" if bp[p]["o"] not in cur else "moved", bp[p]["k"])
+        if p[:-1] in newdirs:
+            where += "@in-new-dir"
+        if b is None:
+            f.add("add-%s%s" % (e["k"], where))
+            continue
+        if b["p"] != e["p"]:
+            f.add("rename-%s%s%s" % (e["k"], "-with-children" if any(tuple(g["p"])[:len(p)] == p and g["o"] != o
+                                                                      for g in cur.values()) else "", where))
+        if b["k"] != e["k"]:
+            f.add("kind-%s-to-%s%s" % (b["k"], e["k"], "-with-children" if any(
+                tuple(g["p"])[:len(p)] == p and g["o"] != o for g in cur.values()) else ""))
+        elif b["c"] != e["c"]:
+            f.add("modify-" + e["k"])
+        if b["x"] != e["x"] and b["k"] == e["k"]:
+            f.add("chmod")
+    for o, b in bo.items():
+        if o not in cur:
+            f.add("delete-" + b["k"])
+    for e in h["T"][n - 1]:
+        if e["k"] == "directory" and not any(tuple(g["p"])[:len(e["p"])] == tuple(e["p"]) and g is not e for g in h["T"][n - 1]):
+            if e["o"] not in bo or bo[e["o"]] != e or any(tuple(g["p"])[:len(e["p"])] == tuple(e["p"]) and g["o"] != e["o"] for g in base):
+                f.add("leaves-empty-dir")
+    return f or {"any-revision" if n == 1 else "no-change"}
+
+
+def class_string(h):
+    """The input class of a minimal failing history.  A path that stops being a file / symlink and becomes a directory
+    with something inside is one class whatever is put inside."""
+    f = change_classes(h)
+    if any(c.startswith("kind-") and c.endswith("-to-directory-with-children") for c in f):
+        f = {c for c in f if c.endswith("-to-directory-with-children") or c in ("merge", "second-root")}
+    return "+".join(sorted(f))
+
+
+def minimise_row(h, kind_of, once, names):
+    """Common tail of an experiment: when the python twin sees a failure, shrink the history and work out whether the
+    failure needs the one-character name.  once(history, names) -> row; kind_of(row) -> failure kind or None.
+    Returns (minimal history, input class string, runs used)."""
+    m, used = minimise(h, lambda c: kind_of(once(c, names)))
+    cls = class_string(m)
+    if names == 1 and kind_of(once(m, 0)) is None:
+        cls += "+one-character-name"
+    return m, cls, used
